@@ -423,6 +423,16 @@ func RuleM4(c *Ctx) {
 							}
 						}
 					}
+					// a worker that is handed its chunk number or its slot as an argument, or captures a pointer to
+					// the slot taken by the spawning code: read them at the spawn
+					if f != fn {
+						for _, s := range sites {
+							if s.target == f {
+								jv = throughSpawn(jv, f, s)
+								slot = throughSpawn(slot, f, s)
+							}
+						}
+					}
 					// resolve j through per-iteration cell
 					jv = resolveCell(jv)
 					ia, isIA := slot.(*ssa.IndexAddr)
@@ -802,7 +812,7 @@ func (c *Ctx) m4Reducer(fn *ssa.Function) {
 		// doublings: an inner loop l < c with one Double
 		var dbl *countedLoop
 		for _, il := range cls {
-			if cl != nil && il != cl && cl.loop.Blocks[il.loop.Header] && il.bound == ssa.Value(cw) {
+			if cl != nil && il != cl && cl.loop.Blocks[il.loop.Header] && (il.bound == ssa.Value(cw) || il.init == ssa.Value(cw)) {
 				dbl = il
 			}
 		}
@@ -815,7 +825,15 @@ func (c *Ctx) m4Reducer(fn *ssa.Function) {
 					}
 				}
 			}
-			if z, isK := core.ConstInt(dbl.init); !isK || z != 0 || dbl.step != 1 || dbl.op != token.LSS {
+			// exactly c iterations: l = 0; l < c; l++  |  l = 1; l <= c; l++  |  l = c; l > 0; l--  |  l = c; l >= 1; l--
+			zi, isKi := core.ConstInt(dbl.init)
+			zb, isKb := core.ConstInt(dbl.bound)
+			switch {
+			case dbl.bound == ssa.Value(cw) && isKi && zi == 0 && dbl.step == 1 && dbl.op == token.LSS:
+			case dbl.bound == ssa.Value(cw) && isKi && zi == 1 && dbl.step == 1 && dbl.op == token.LEQ:
+			case dbl.init == ssa.Value(cw) && isKb && zb == 0 && dbl.step == -1 && dbl.op == token.GTR:
+			case dbl.init == ssa.Value(cw) && isKb && zb == 1 && dbl.step == -1 && dbl.op == token.GEQ:
+			default:
 				nd = -1
 			}
 		}
@@ -2046,6 +2064,10 @@ func RuleM9(c *Ctx) {
 			if !isIA || !strings.HasSuffix(core.PathOf(ia.X), "pp.windows)") {
 				return
 			}
+			if cursorCountsWindows(core.StripConv(ia.Index), outer, inner) {
+				idxOK = true
+				return
+			}
 			add, isAdd := core.StripConv(ia.Index).(*ssa.BinOp)
 			if !isAdd || add.Op != token.ADD {
 				idxOK = false
@@ -2123,6 +2145,12 @@ func RuleM10(c *Ctx) {
 					}
 				}
 			}
+			// the length of a slice made in this function is the length it was made with
+			if x, isLen := core.IsLenOf(v); isLen {
+				if mk, isMk := core.StripConv(x).(*ssa.MakeSlice); isMk && mk.Parent() == fn {
+					return tr(mk.Len)
+				}
+			}
 			// … or a captured variable declared (and assigned once) inside the spawn loop's body
 			if ld, isLd := v.(*ssa.UnOp); isLd && ld.Op == token.MUL && cl != nil {
 				if cell, isCell := ld.X.(*ssa.Alloc); isCell && cell.Parent() == fn && cl.loop.Blocks[cell.Block()] {
@@ -2163,7 +2191,7 @@ func RuleM10(c *Ctx) {
 					why = append(why, "a split does not slice the caller's "+wantBase)
 				}
 				// as polynomials in the loop variable i: low = i*P and high = (i+1)*P for one stride P
-				iP := pc.leafPoly(cl.phi)
+				iP := pc.of(cl.phi, 0) // in a range loop the variable is the header phi plus one
 				lo, hi := pc.of(sl.Low, 0), pc.of(sl.High, 0)
 				var P poly
 				for _, l := range append([]ssa.Value{}, pc.leaves...) {
@@ -2232,7 +2260,20 @@ func RulePW(c *Ctx) {
 	c.Saw(core.FnName(fn))
 	cls := countedLoops(fn)
 	muls := callsTo(fn, "bandersnatch/fr", "Element", "Mul")
-	if len(cls) != 1 || len(muls) != 1 || len(core.CallsIn(fn)) != 2 {
+	if len(cls) != 1 || len(muls) != 1 || len(core.CallsIn(fn)) != 2 || pwOtherShape(fn, cls[0], muls[0]) {
+		// not the recurrence as written today: fold the function on a symbolic x for every degree 1..300 and compare
+		// coefficient i with the product of i factors x
+		// … but only when the function cannot behave differently for longer vectors: one loop with a straight-line
+		// body (its bound test is the only branch), no closures, no arithmetic but additions, subtractions and comparisons
+		if pwUniform(fn) {
+			if why := pwFold(fn); why == "" {
+				c.OK("PW", "PowersOf:recurrence", fn.Pos(), "one loop with a straight-line body, folded on a symbolic x for every degree 1..300: coefficient i is the product of i factors x")
+				return
+			} else if !strings.HasPrefix(why, "cannot fold") {
+				c.Bad("PW", "PowersOf:recurrence", fn.Pos(), why)
+				return
+			}
+		}
 		c.Und("PW", "PowersOf:recurrence", fn.Pos(), fmt.Sprintf("PowersOf is no longer the single-loop recurrence (%d loops, %d multiplications, %d calls); cannot decide that coefficient i is x^i", len(cls), len(muls), len(core.CallsIn(fn))))
 		return
 	}
@@ -2682,4 +2723,181 @@ func storesInto2(fn *ssa.Function, addr ssa.Value) []ssa.Instruction {
 		}
 	})
 	return out
+}
+
+// pwOtherShape: the single multiplication does not write an element of the result or a local running power, i.e. the
+// structural reading below has nothing to hold on to (a cursor pointer, a helper).
+func pwOtherShape(fn *ssa.Function, cl *countedLoop, m *ssa.Call) bool {
+	switch m.Call.Args[0].(type) {
+	case *ssa.Alloc, *ssa.IndexAddr:
+		return false
+	}
+	return true
+}
+
+// pwFold folds PowersOf(x, n) for n = 1..300 on a symbolic x. "" when every coefficient is x^i.
+func pwFold(fn *ssa.Function) string {
+	if len(fn.Params) != 2 {
+		return "cannot fold: unexpected signature"
+	}
+	x := &fterm{op: "sym", s: "x"}
+	for n := int64(1); n <= 300; n++ {
+		fo := &folder{limit: 500_000}
+		res, err := fo.Fold(fn, []any{x, n})
+		if err != nil {
+			return "cannot fold PowersOf: " + err.Error()
+		}
+		out, ok := res.(fslice)
+		if !ok || int64(out.len) != n {
+			return fmt.Sprintf("PowersOf(x, %d) does not return %d coefficients", n, n)
+		}
+		want := fOne
+		for i := int64(0); i < n; i++ {
+			got := "?"
+			if t, isT := out.o.slots[out.off+int(i)].(*fterm); isT {
+				got = t.String()
+			}
+			if got != want.String() {
+				return fmt.Sprintf("PowersOf(x, %d): coefficient %d is %s, expected x^%d", n, i, clip(got, 80), i)
+			}
+			want = fComm("mul", fOne, want, x)
+		}
+	}
+	return ""
+}
+
+// cursorCountsWindows: idx is a running cursor that starts at 0, is incremented by one on every iteration of the inner
+// loop and by nothing else, and is read before the increment: with the inner loop running its full count each time
+// (left only through its bound test) its value in iteration (l, w) is l*N + w.
+func cursorCountsWindows(idx ssa.Value, outer, inner *countedLoop) bool {
+	pi, ok := idx.(*ssa.Phi)
+	if !ok || pi.Block() != inner.loop.Header {
+		return false
+	}
+	// the inner loop is left only from its header
+	for b := range inner.loop.Blocks {
+		if b == inner.loop.Header {
+			continue
+		}
+		for _, s := range b.Succs {
+			if !inner.loop.Blocks[s] {
+				return false
+			}
+		}
+	}
+	var po *ssa.Phi
+	for i, e := range pi.Edges {
+		pred := pi.Block().Preds[i]
+		if inner.loop.Blocks[pred] {
+			inc, isInc := e.(*ssa.BinOp)
+			if !isInc || inc.Op != token.ADD || inc.X != ssa.Value(pi) {
+				return false
+			}
+			if one, isOne := core.ConstInt(inc.Y); !isOne || one != 1 {
+				return false
+			}
+			continue
+		}
+		p, isPhi := e.(*ssa.Phi)
+		if !isPhi || p.Block() != outer.loop.Header || (po != nil && po != p) {
+			return false
+		}
+		po = p
+	}
+	if po == nil {
+		return false
+	}
+	for i, e := range po.Edges {
+		pred := po.Block().Preds[i]
+		if outer.loop.Blocks[pred] {
+			if e != ssa.Value(pi) {
+				return false
+			}
+			continue
+		}
+		if z, isZ := core.ConstInt(e); !isZ || z != 0 {
+			return false
+		}
+	}
+	return true
+}
+
+// throughSpawn: a value inside a spawned function literal, expressed at the spawn: a parameter becomes the actual
+// argument of the go statement, a load of a captured single-assignment local becomes the value assigned to it.
+func throughSpawn(v ssa.Value, f *ssa.Function, s *spawnSite) ssa.Value {
+	if p, ok := v.(*ssa.Parameter); ok && p.Parent() == f {
+		for i, q := range f.Params {
+			if q == p && i < len(s.args) {
+				return s.args[i]
+			}
+		}
+		return v
+	}
+	ld, ok := v.(*ssa.UnOp)
+	if !ok || ld.Op != token.MUL {
+		return v
+	}
+	fv, ok := ld.X.(*ssa.FreeVar)
+	if !ok || s.parent == nil {
+		return v
+	}
+	k := -1
+	for i, x := range f.FreeVars {
+		if x == fv {
+			k = i
+		}
+	}
+	var mc *ssa.MakeClosure
+	core.AllInstrs(s.parent, func(i ssa.Instruction) {
+		if m, isMC := i.(*ssa.MakeClosure); isMC && m.Fn == ssa.Value(f) {
+			mc = m
+		}
+	})
+	if k < 0 || mc == nil || k >= len(mc.Bindings) {
+		return v
+	}
+	cell, ok := mc.Bindings[k].(*ssa.Alloc)
+	if !ok {
+		return v
+	}
+	if sts := storesInto(cell); len(sts) == 1 {
+		if _, isAddr := sts[0].Val.(*ssa.IndexAddr); isAddr {
+			return sts[0].Val
+		}
+	}
+	return v
+}
+
+// pwUniform: one loop whose bound test is the only branch of the function, no function literals, goroutines or
+// defers, and integer arithmetic limited to additions, subtractions and comparisons: nothing by which a longer
+// vector could be treated differently from a shorter one.
+func pwUniform(fn *ssa.Function) bool {
+	loops := core.Loops(fn)
+	if len(loops) != 1 || len(fn.AnonFuncs) != 0 {
+		return false
+	}
+	ok := true
+	nIf := 0
+	core.AllInstrs(fn, func(i ssa.Instruction) {
+		switch x := i.(type) {
+		case *ssa.If:
+			nIf++
+			if x.Block() != loops[0].Header {
+				ok = false
+			}
+		case *ssa.Go, *ssa.Defer, *ssa.MakeClosure, *ssa.Select, *ssa.Send:
+			ok = false
+		case *ssa.BinOp:
+			switch x.Op {
+			case token.ADD, token.SUB, token.LSS, token.LEQ, token.GTR, token.GEQ, token.EQL, token.NEQ:
+			default:
+				ok = false
+			}
+		case *ssa.Call:
+			if f := core.Callee(x.Common()); f != nil && f.Pkg != nil && !strings.HasSuffix(f.Pkg.Pkg.Path(), "bandersnatch/fr") {
+				ok = false
+			}
+		}
+	})
+	return ok && nIf == 1
 }
